@@ -28,6 +28,7 @@ import (
 	"strings"
 	"unicode/utf8"
 
+	compact_time "github.com/kstenerud/go-compact-time"
 	"github.com/kstenerud/go-concise-encoding/ce/events"
 	"github.com/kstenerud/go-concise-encoding/internal/chars"
 	"github.com/kstenerud/go-concise-encoding/internal/common"
@@ -449,6 +450,30 @@ func (_this *Context) ValidateContentsMarkerIDString(contents string) {
 	}
 	if runeCount > maxMarkerIDRuneCount {
 		panic(fmt.Errorf("marker ID character length %d is greater than the maximum of %d", runeCount, maxMarkerIDRuneCount))
+	}
+}
+
+// The fields of a time must be in range, and an area/location time zone must
+// be expressible in a document (same shape as TZ_AREALOC in the CTE grammar).
+func (_this *Context) ValidateTime(value compact_time.Time) {
+	if err := value.Validate(); err != nil {
+		panic(err)
+	}
+	if value.Type == compact_time.TimeTypeDate || value.Timezone.Type != compact_time.TimezoneTypeAreaLocation {
+		return
+	}
+	areaLocation := value.Timezone.LongAreaLocation
+	for i := 0; i < len(areaLocation); i++ {
+		ch := areaLocation[i]
+		switch {
+		case ch >= 'A' && ch <= 'Z':
+			continue
+		case i == 0:
+			// Must begin with an uppercase letter
+		case ch >= 'a' && ch <= 'z', ch >= '0' && ch <= '9', strings.IndexByte("_-./+", ch) >= 0:
+			continue
+		}
+		panic(fmt.Errorf("time zone area/location [%v] contains an invalid character at index %v", areaLocation, i))
 	}
 }
 
